@@ -32,6 +32,10 @@ const (
 	BindGoDir                   // @go(type: "pkg.Type") directive in the schema
 	BindGoDirBare               // @go(type: "Type")
 	BindGoDirFull               // @go(type: "full/import/path.Type")
+	// Go type names that differ from the GraphQL names, bound by Root.RegisterType only AFTER requests have
+	// met the objects unbound (under object, interface and union typed fields): once a type is registered its
+	// objects are resolved as their concrete type, whatever earlier requests saw
+	BindRegisterLate
 	NumBindings
 )
 
@@ -111,6 +115,20 @@ func NewReflWorld(u *Universe, lm ListMode, b Binding) (*World, error) {
 	if err := w.Root.ParseString(sdl); err != nil {
 		return nil, fmt.Errorf("universe schema rejected: %w\n%s", err, sdl)
 	}
+	if b == BindRegisterLate {
+		for _, q := range []string{"{ one { __typename name } named { __typename } any { __typename } }", "{ a { name peer { name } } items { __typename } }",
+			"{ any { ... on A { name } ... on B { flag } } one { ... on B { flag } } }"} {
+			_ = w.Root.ResolveString(q, "", nil)
+		}
+		w.TakeCalls()
+		for _, tn := range []string{"A", "B", "C"} {
+			if _, ok := u.Types[tn]; ok {
+				if err := w.Root.RegisterType(refluni.NewAlt(w, tn, ""), tn); err != nil {
+					return nil, err
+				}
+			}
+		}
+	}
 	if b == BindRegister {
 		for _, tn := range []string{"A", "B", "C", "Query", "Mutation"} {
 			if _, ok := u.Types[tn]; ok {
@@ -179,7 +197,11 @@ func (w *World) node(id string) interface{} {
 	case Iface:
 		n = &resNode{w: w, id: id}
 	case Refl:
-		n = refluni.New(w, w.U.NodeType[id], id)
+		if w.Binding == BindRegisterLate {
+			n = refluni.NewAlt(w, w.U.NodeType[id], id)
+		} else {
+			n = refluni.New(w, w.U.NodeType[id], id)
+		}
 	default:
 		n = &anyNode{id: id}
 	}
